@@ -120,7 +120,7 @@ impl<F: Flavor> Sys<F> {
     fn invariants(&mut self, out: &mut StepOut) {
         let (na, nf) = harness::take_alloc_counts();
         if na + nf > 0 {
-            out.v("C18", "alloc-in-call", format!("{} allocations / {} frees inside library calls of this step", na, nf));
+            out.p("C18", "alloc-in-call", format!("{} allocations / {} frees inside library calls of this step", na, nf));
         }
         let snap = self.timer.verif_snapshot();
         let live = self.live_nodes();
@@ -143,10 +143,10 @@ impl<F: Flavor> Sys<F> {
         for (i, s) in self.slots.iter().enumerate() {
             if let Some(s) = s {
                 if s.fut.get().is_terminated() != s.meta.done {
-                    out.v("C17", "is-terminated", format!("slot {}: is_terminated()={} but completed={}", i, s.fut.get().is_terminated(), s.meta.done));
+                    out.p("C17", "is-terminated", format!("slot {}: is_terminated()={} but completed={}", i, s.fut.get().is_terminated(), s.meta.done));
                 }
                 if s.meta.pending() && s.expired && !fresh(G, i, &s.meta) {
-                    out.v("C15", "due-not-woken", format!("slot {}: check_expirations() ran with clock >= deadline {} but the future has not been woken through the waker of its latest poll", i, s.deadline));
+                    out.p("C15", "due-not-woken", format!("slot {}: check_expirations() ran with clock >= deadline {} but the future has not been woken through the waker of its latest poll", i, s.deadline));
                 }
             }
         }
